@@ -5,7 +5,7 @@ HERE = os.path.dirname(os.path.dirname(os.path.abspath(__file__)))
 CHECKS = {
  # id: (engine, technique, level text, level note, design ref)
  "C01": ("SEQ+CONC+FUZZ", "model-based stateful PBT (proptest) with invariant over every observation", "weight bound 0 <= used <= limit observed after every op, inside stall windows and after release on thousands of generated histories under pressure", "reference model + hooks trusted; F5 trigger excluded by construction and probed separately", "5/C01"),
- "C02": ("CONC", "generated concurrent programs + delay injection, pure history checker over stamped logs (unique value tokens)", "every value returned by any of the 7 read variants in generated concurrent histories is checked for origin, key and staleness", "stamps from one atomic counter; one-directional rule (absent always allowed); interleavings sampled", "5/C02"),
+ "C02": ("SEQ+CONC", "generated concurrent programs + delay injection, pure history checker over stamped logs (unique value tokens)", "every value returned by any of the 7 read variants in generated concurrent histories is checked for origin, key and staleness", "stamps from one atomic counter; one-directional rule (absent always allowed); interleavings sampled", "5/C02"),
  "C03": ("SEQ+CONC+VOLUME+FUZZ", "model-based stateful PBT against a reference model (no-pressure histories)", "every accepted, undeleted, unexpired key is physically present and readable after every op of generated no-pressure histories", "reference model trusted; clock owned by harness", "5/C03"),
  "C04": ("SEQ+CONC+FUZZ", "model-based stateful PBT with worker stall windows", "reads between delete() returning and its acknowledgement, statuses of deletes in every key state, weight release checked against the model", "reference model trusted", "5/C04"),
  "C05": ("SEQ+CONC+VOLUME+FUZZ", "model-based stateful PBT; invariant over physical snapshots at every quiescent point", "bijection store ids <-> charged ids and weight total == sum of charges after every quiescent step incl. unawaited same-key bursts", "snapshot hooks trusted", "5/C05"),
